@@ -30,17 +30,21 @@ ShapesF == {
   [imps |-> <<"f">>,             lf |-> 2, lg |-> 0, lm |-> 0, feat |-> <<"elem","start","tinit">>],
   [imps |-> <<>>,                lf |-> 2, lg |-> 0, lm |-> 0, feat |-> <<"exports","names","start">>],
   [imps |-> <<"f">>,             lf |-> 1, lg |-> 0, lm |-> 0, feat |-> <<"exports","duptypes">>],
-  [imps |-> <<"g","f">>,         lf |-> 0, lg |-> 0, lm |-> 0, feat |-> <<"exports">>] }
+  [imps |-> <<"g","f">>,         lf |-> 0, lg |-> 0, lm |-> 0, feat |-> <<"exports">>],
+  \* "spare": nothing refers to the entity at index 0 of a space, so deleting it is a clean deletion that moves all others
+  [imps |-> <<"g","f","f">>,     lf |-> 2, lg |-> 0, lm |-> 0, feat |-> <<"exports","names","spare">>] }
 ShapesG == {
   [imps |-> <<"g","g">>,     lf |-> 1, lg |-> 2, lm |-> 1, feat |-> <<"exports","names","gg","data","doff">>],
   [imps |-> <<"f","g">>,     lf |-> 2, lg |-> 1, lm |-> 0, feat |-> <<"exports","gg","elem","eoff">>],
   [imps |-> <<>>,            lf |-> 1, lg |-> 0, lm |-> 0, feat |-> <<"exports">>],
-  [imps |-> <<>>,            lf |-> 1, lg |-> 2, lm |-> 0, feat |-> <<"names">>] }
+  [imps |-> <<>>,            lf |-> 1, lg |-> 2, lm |-> 0, feat |-> <<"names">>],
+  [imps |-> <<"f","g","g">>, lf |-> 1, lg |-> 1, lm |-> 1, feat |-> <<"exports","gg","data","doff","spare">>] }
 ShapesM == {
-  [imps |-> <<"m","m">>,     lf |-> 1, lg |-> 0, lm |-> 1, feat |-> <<"exports","names","data","atomics">>],
+  [imps |-> <<"m","m">>,     lf |-> 1, lg |-> 0, lm |-> 1, feat |-> <<"exports","names","data","atomics","allmem">>],
   [imps |-> <<"f","m">>,     lf |-> 2, lg |-> 0, lm |-> 2, feat |-> <<"exports","data","atomics">>],
   [imps |-> <<>>,            lf |-> 1, lg |-> 0, lm |-> 1, feat |-> <<"data","atomics">>],
-  [imps |-> <<"m">>,         lf |-> 1, lg |-> 0, lm |-> 0, feat |-> <<"exports","atomics">>] }
+  [imps |-> <<"m">>,         lf |-> 1, lg |-> 0, lm |-> 0, feat |-> <<"exports","atomics">>],
+  [imps |-> <<"f","m","m">>, lf |-> 1, lg |-> 0, lm |-> 1, feat |-> <<"exports","data","atomics","spare">>] }
 Shapes == CASE Camp = "f" -> ShapesF [] Camp = "g" -> ShapesG [] Camp = "m" -> ShapesM
 
 Has(sh, f) == \E i \in DOMAIN sh.feat : sh.feat[i] = f
